@@ -21,6 +21,7 @@ import (
 	"regexp"
 	"strconv"
 	"strings"
+	"unicode"
 	"unicode/utf8"
 
 	"github.com/benhoyt/goawk/interp"
@@ -55,6 +56,9 @@ var c10Progs = map[string]string{
 	"sub": `BEGIN { t1 = s; n1 = gsub(re, "&", t1); t2 = s; n2 = gsub(re, repl, t2); t3 = s; n3 = sub(re, repl, t3)
   printf "%d\001%s\001%d\001%s\001%d\001%s\001", n1, t1, n2, t2, n3, t3 }`,
 	"tilde": `BEGIN { printf "%d\001", (s ~ re) }`,
+	"case":  `BEGIN { printf "%s\001%s\001", tolower(s), toupper(s) }`,
+	"fields": `BEGIN { k = split(s, arr, " "); c = 0; for (x in arr) c++; printf "%d\001%d\001", k, c
+  for (i = 1; i <= k; i++) printf "%s\002", arr[i] }`,
 	"split": `BEGIN { k = split(s, arr, sep); c = 0; for (x in arr) c++; printf "%d\001%d\001", k, c
   for (i = 1; i <= k; i++) printf "%s\002", arr[i] }`,
 }
@@ -431,7 +435,13 @@ func c10Oracle(c *vh.Ctx, k c10Case, o c10Out, replay interface{}) {
 		if w := build(first); f[5] != string(w) || f[4] != strconv.Itoa(len(first)) {
 			fail("sub() is not exactly the first of gsub's replacements", f[4]+" "+hx(f[5]), fmt.Sprintf("%d %s", len(first), vh.Hx(w)))
 		}
-	case "split", "rsplit":
+	case "case":
+		// not part of the property's statement: only the Lean correspondence is checked, plus the one thing every reading
+		// agrees on — ASCII text is mapped bytewise
+		if isASCII(s) && (f[0] != strings.ToLower(string(s)) || f[1] != strings.ToUpper(string(s)) || len(f[0]) != len(s)) {
+			fail("tolower/toupper of ASCII text is not the bytewise mapping", hx(f[0])+" "+hx(f[1]), "")
+		}
+	case "split", "rsplit", "fields":
 		if len(f) < 2 {
 			fail("unparsable output", o.res.Out, "")
 			return
@@ -509,6 +519,20 @@ func c10LeanReqs(k c10Case) []string {
 		}
 	case "split":
 		return []string{fmt.Sprintf("split %s %s", k.S, k.A)}
+	case "fields":
+		return []string{fmt.Sprintf("split %s 20", k.S)}
+	case "case":
+		lo, up := "", ""
+		seen := map[string]bool{}
+		for _, u := range unitsOf(s, true) {
+			if len(u) > 1 && !seen[string(u)] {
+				seen[string(u)] = true
+				r, _ := utf8.DecodeRune(u)
+				lo += " " + vh.Hx(u) + ":" + vh.HxS(string(unicode.ToLower(r)))
+				up += " " + vh.Hx(u) + ":" + vh.HxS(string(unicode.ToUpper(r)))
+			}
+		}
+		return []string{"case 0 " + k.S + lo, "case 1 " + k.S + up}
 	case "rsplit":
 		re := goRegex(a)
 		if re == nil {
@@ -552,7 +576,9 @@ func c10LeanWant(k c10Case, o c10Out) []string {
 		return []string{f[1] + " " + f[2] + " ok " + vh.HxS(f[3]), "wf=1 aligned=1"}
 	case "sub":
 		return []string{f[0] + " " + vh.HxS(f[1]), f[2] + " " + vh.HxS(f[3]), f[4] + " " + vh.HxS(f[5]), "wf=1 aligned=1"}
-	case "split", "rsplit":
+	case "case":
+		return []string{vh.HxS(f[0]), vh.HxS(f[1])}
+	case "split", "rsplit", "fields":
 		rest := o.res.Out[len(f[0])+len(f[1])+2:]
 		pieces := strings.Split(rest, "\x02")
 		pieces = pieces[:len(pieces)-1]
@@ -918,6 +944,8 @@ func c10Corpus() []c10Case {
 		{Op: "split", S: h("a,b,,c,"), A: h(",")}, {Op: "split", S: h("aébé"), A: h("é")}, {Op: "split", S: h("a.b"), A: h(".")},
 		{Op: "split", S: h("a|b"), A: h("|")}, {Op: "split", S: h("a\xffb\xff"), A: h("\xff")}, {Op: "split", S: h(""), A: h(",")},
 		{Op: "split", S: h("aé日"), A: h("")}, {Op: "split", S: h("a\\b"), A: h("\\")}, {Op: "split", S: h("é"), A: h("\xa9")},
+		{Op: "fields", S: h("  a \t b\n")}, {Op: "fields", S: h("a\u00a0b\u3000c")}, {Op: "fields", S: h("\xc2 a\xff\x85b")}, {Op: "fields", S: h("")}, {Op: "fields", S: h(" ")},
+		{Op: "case", S: h("Hello, World!")}, {Op: "case", S: h("Éé\xffZ")}, {Op: "case", S: h("\xff")}, {Op: "case", S: h("ßǅ")}, {Op: "case", S: h("")},
 		{Op: "rsplit", S: h("a1b22c"), A: h("[0-9]+")}, {Op: "rsplit", S: h("abc"), A: h("x*")}, {Op: "rsplit", S: h(",a,"), A: h(",|;")},
 	}
 	return cs
@@ -1042,6 +1070,31 @@ func runC10(c *vh.Ctx) {
 				s = append(append(append([]byte{}, s[:p]...), sep...), s[p:]...)
 			}
 			add(c10Case{Op: "split", S: vh.Hx(s), A: vh.Hx(sep)})
+		}
+		blanks := [][]byte{[]byte(" "), []byte("\t"), []byte("\n"), []byte("\v"), []byte("\f"), []byte("\r"), []byte("\u00a0"), []byte("\u0085"), []byte("\u1680"),
+			[]byte("\u2003"), []byte("\u200a"), []byte("\u2028"), []byte("\u202f"), []byte("\u205f"), []byte("\u3000"), []byte("\u200b"), {0xc2}, {0xe2, 0x80}, {0x85}, {0x1c}, {0x1f}}
+		letters := [][]byte{[]byte("A"), []byte("z"), []byte("Q"), []byte("@"), []byte("["), []byte("`"), []byte("{"), []byte("É"), []byte("é"), []byte("ß"), []byte("Σ"), []byte("ǅ"), []byte("İ"), []byte("ı"), []byte("ſ"), []byte("K"), []byte("\ufffd"), []byte("𐐀")}
+		for i := 0; i < c.N(500, 8000); i++ {
+			s := g.subject(i%3, 5)
+			for j := c.Rng.Intn(5); j > 0; j-- { // sprinkle blanks of every kind, also near-blanks
+				bl := blanks[c.Rng.Intn(len(blanks))]
+				if i%3 == 0 {
+					bl = blanks[c.Rng.Intn(6)]
+				}
+				p := c.Rng.Intn(len(s) + 1)
+				s = append(append(append([]byte{}, s[:p]...), bl...), s[p:]...)
+			}
+			add(c10Case{Op: "fields", S: vh.Hx(s)})
+			t := g.subject(i%3, 4)
+			for j := c.Rng.Intn(4); j > 0; j-- {
+				l := letters[c.Rng.Intn(len(letters))]
+				if i%3 == 0 {
+					l = letters[c.Rng.Intn(7)]
+				}
+				p := c.Rng.Intn(len(t) + 1)
+				t = append(append(append([]byte{}, t[:p]...), l...), t[p:]...)
+			}
+			add(c10Case{Op: "case", S: vh.Hx(t)})
 		}
 		for i := 0; i < c.N(60, 1500); i++ { // long subjects: the loops run many times, offsets exceed one byte
 			s := g.subject(i%3, 200)
@@ -1218,8 +1271,10 @@ func c10NonTrivial(c *vh.Ctx, k c10Case, o c10Out) bool {
 			}
 		}
 		return len(all) > 0 && !(all[0][0] == 0 && all[0][1] == len(s))
-	case "split", "rsplit":
+	case "split", "rsplit", "fields":
 		return o.f[0] != "0" && o.f[0] != "1"
+	case "case":
+		return o.f[0] != string(s) || o.f[1] != string(s)
 	}
 	return false
 }
